@@ -6,6 +6,11 @@
 //	                             that mirror the writer calls
 //	sr CHUNKS DATAHEX rprog...   a reader program over given bytes (truncated / foreign data)
 //
+//	rw INIT CHUNKS p1.. | OFF | p2..   a ByteBuffer created with INIT bytes of storage, p1 written from 0, Seek
+//	                             to OFF, p2 written in place (collections/values rewritten in front of or over
+//	                             existing data, then more writes), p2 read back from OFF of the final storage;
+//	                             the answer carries the whole storage and the final write position
+//
 // Answers are compared line by line with the Lean model (drv_c01c, Hive/Model/Stream.lean).  The
 // round-trip oracle is evaluated here on the implementation, independently of Lean: the values read
 // equal the values written and exactly the written bytes are consumed.
@@ -177,9 +182,103 @@ func exec(r *hx.Run, op string) string {
 		return ans
 	case "sr":
 		return sx.ExecSR(f)
+	case "rw":
+		ans, in := sx.ExecRW(f)
+		if ans == "werr" {
+			return ans
+		}
+		short := op
+		if len(short) > 500 {
+			short = short[:500] + "..."
+		}
+		if ans == "panic" {
+			r.Fail("in-place", "panic while writing in place / reading back; op: "+short, map[string]string{"oracle": "panic", "op": "rw"})
+
+			return ans
+		}
+		// layout: writing in place = overlaying what the same calls append to a fresh buffer
+		want := sx.Overlay(sx.Overlay(make([]byte, in.Init), 0, in.Enc1, true), in.Off, in.Enc2, in.Ops2 > 0)
+		if string(want) != string(in.Storage) {
+			r.Fail("in-place", fmt.Sprintf("storage after writing in place is %x, the written data laid over the old storage is %x; op: %s", clip(in.Storage), clip(want), short),
+				map[string]string{"oracle": "layout", "op": "rw"})
+		}
+		if in.Pos != in.Off+len(in.Enc2) {
+			r.Fail("in-place", fmt.Sprintf("write position after phase 2 is %d, it started at %d and wrote %d bytes; op: %s", in.Pos, in.Off, len(in.Enc2), short),
+				map[string]string{"oracle": "position", "op": "rw"})
+		}
+		if strings.HasPrefix(ans, "rerr") {
+			r.Fail("in-place", fmt.Sprintf("reading back what was written in place failed after %d bytes (%d of %d values); op: %s", in.Consumed, len(in.Got), len(in.Want), short),
+				map[string]string{"oracle": "read-back-error", "op": "rw"})
+		} else {
+			if strings.Join(in.Got, ",") != strings.Join(in.Want, ",") {
+				r.Fail("in-place", fmt.Sprintf("values read back differ from the values written in place: got %v want %v; op: %s", in.Got, in.Want, short),
+					map[string]string{"oracle": "values-differ", "op": "rw"})
+			}
+			if in.Consumed != len(in.Enc2) {
+				r.Fail("in-place", fmt.Sprintf("consumed %d bytes, written %d; op: %s", in.Consumed, len(in.Enc2), short),
+					map[string]string{"oracle": "consumed-differs", "op": "rw"})
+			}
+		}
+
+		return ans
 	}
 
 	return "bad-op"
+}
+
+func clip(b []byte) []byte {
+	if len(b) > 120 {
+		return b[:120]
+	}
+
+	return b
+}
+
+// encLens returns the offsets behind each call of a writer program written into a fresh buffer.
+func encLens(ws string) []int {
+	wp := sx.ParseW(strings.Fields(ws))
+	var out []int
+	for i := range wp {
+		buf := newBuf()
+		if err := sx.RunW(wp[:i+1], buf); err != nil {
+			break
+		}
+		b, _ := buf.Bytes()
+		out = append(out, len(b))
+	}
+
+	return out
+}
+
+// collFirst is a writer program that starts with a collection (what gets rewritten in place).
+func collFirst(rng *hx.Rng) string {
+	n := rng.Range(0, 4)
+	var s []string
+	switch rng.Intn(3) {
+	case 0:
+		s = append(s, "coll", hx.Pick(rng, lps), "bws", hx.Pick(rng, lps), "(")
+		for j := 0; j < n; j++ {
+			s = append(s, hx.Hex(rbytes(rng, 0, 5)))
+		}
+	case 1:
+		w := hx.Pick(rng, []int{1, 2, 4, 8})
+		s = append(s, "coll", hx.Pick(rng, lps), "num", strconv.Itoa(w), "(")
+		for j := 0; j < n; j++ {
+			s = append(s, hx.Hex(rbytes(rng, w, w)))
+		}
+	default:
+		w := rng.Range(1, 4)
+		s = append(s, "coll", hx.Pick(rng, lps), "obj", strconv.Itoa(w), "(")
+		for j := 0; j < n; j++ {
+			s = append(s, hx.Hex(rbytes(rng, w, w)))
+		}
+	}
+	s = append(s, ")")
+	if rng.Chance(4, 5) {
+		s = append(s, randWProg(rng, false))
+	}
+
+	return strings.Join(s, " ")
 }
 
 type batch struct {
@@ -203,7 +302,13 @@ func (b *batch) emit(op, kind string) {
 	b.r.Count("op:" + f[0])
 	b.r.Count("chunks:" + kind)
 	b.r.Count("ans:" + f[0] + ":" + strings.Fields(ans)[0])
-	for _, t := range f[3:] {
+	toks := f[3:]
+	if f[0] == "rw" {
+		if i := strings.LastIndex(op, "| "); i > 0 {
+			toks = strings.Fields(op[i+2:]) // the calls of phase 2
+		}
+	}
+	for _, t := range toks {
 		switch t {
 		case "num", "bool", "arr", "bytes", "bws", "obj", "ows", "coll", "peek":
 			b.r.Count("call:" + t)
@@ -211,7 +316,7 @@ func (b *batch) emit(op, kind string) {
 			b.r.Count("prefix:" + t)
 		}
 	}
-	if strings.HasPrefix(ans, "ok") && len(f[1]) > 1 {
+	if strings.HasPrefix(ans, "ok") && (len(f[1]) > 1 || (f[0] == "rw" && (f[1] != "0" || f[3] != "|"))) {
 		h := sha256.Sum256([]byte(op))
 		b.r.Nontrivial(string(h[:8]))
 	}
@@ -228,6 +333,10 @@ var corpus = []string{
 	"rt 0,3,0,1,0,2,7 0000 coll u64 num 4 ( 01000000 02000000 ) bool 02 num 8 ffffffffffffffff",
 	"rt - - coll u8 obj 3 ( 010203 040506 ) arr 32 00",
 	"sr 1,1,1 0300aabb bws u16",
+	// a ByteBuffer with spare storage: the write behind the collection must land directly behind it
+	"rw 16 - | 0 | coll u8 num 1 ( 05 06 ) num 2 0700",
+	"rw 0 1,1,1,1,1,1 coll u16 bws u8 ( aabb cc ) num 4 01020304 bytes ffff | 0 | coll u16 bws u8 ( dd ) bool 01",
+	"rw 8 2,2,2 num 2 1111 coll u32 obj 2 ( 0102 0304 ) | 2 | coll u32 obj 2 ( 0506 ) num 1 09 bws u8 0a0b",
 }
 
 func main() {
@@ -235,7 +344,9 @@ func main() {
 	r.Rule = "random writer programs (Write num/bool/[N]byte, WriteBytes, WriteBytesWithSize, WriteObject, WriteObjectWithSize, WriteCollection of sized/object/number items; " +
 		"every prefix width incl. uint64; payload sizes 0..24 plus 255/256/257/16383/16384/16385/40000/65535/65536) read back through a chunking reader: " +
 		"whole, 1-byte, prime-sized (2,3,5,7,11,13,251,4099) and random chunk lists (incl. 0-byte reads), with a random tail behind the written bytes; plus reader programs over truncated data; " +
-		"non-trivial = a round trip that succeeded through a reader that really splits (chunk list not empty); distinct by sha256 of the request line"
+		"in-place writes (rw): ByteBuffers created with 0..1000 bytes of storage, a first writer program, Seek to 0 / a call boundary / inside / behind the written data, "+
+		"a second program (mostly a collection rewritten in place, then more calls) whose storage layout, final position and read-back are compared; "+
+		"non-trivial = a round trip that succeeded through a reader that really splits (chunk list not empty), or an in-place write into spare storage / over earlier data; distinct by sha256 of the request line"
 	b := &batch{r: r}
 	if lines := r.ReplayLines(); lines != nil {
 		for _, l := range lines {
@@ -280,6 +391,51 @@ func main() {
 				b.emit("sr "+randomChunks(rng)+" "+hx.Hex(data[:cut])+" "+sx.ShowR(rp), "truncated")
 			}
 		}
+	}
+	// writing in place: buffers with spare storage (NewByteBuffer(initialLength)), collections and values
+	// rewritten in front of / over existing data after a Seek, then more writes directly behind them
+	nRW := 1500 * r.Scale
+	for i := 0; i < nRW; i++ {
+		rng, _ := r.Rng.Fork()
+		init := hx.Pick(rng, []int{0, 0, 1, 7, 16, 64, 200, 1000})
+		p1 := ""
+		if i%3 != 0 {
+			if rng.Bool() {
+				p1 = collFirst(rng)
+			} else {
+				p1 = randWProg(rng, false)
+			}
+		}
+		off := 0
+		if ends := encLens(p1); len(ends) > 0 {
+			switch rng.Intn(6) {
+			case 0:
+				off = ends[len(ends)-1] // append directly behind phase 1
+			case 1:
+				off = rng.Intn(ends[len(ends)-1] + 1) // anywhere inside
+			case 2:
+				off = ends[len(ends)-1] + rng.Intn(5) // beyond what was written
+			case 3:
+				off = ends[rng.Intn(len(ends))] // a call boundary
+			}
+		} else if rng.Chance(1, 4) {
+			off = rng.Intn(init + 3)
+		}
+		p2 := collFirst(rng)
+		if rng.Chance(1, 5) {
+			p2 = randWProg(rng, false)
+		}
+		kind := "whole"
+		chunks := "-"
+		switch rng.Intn(4) {
+		case 1:
+			kind, chunks = "one-byte", constChunks(1, 400)
+		case 2:
+			kind, chunks = "prime", constChunks(hx.Pick(rng, []int{2, 3, 5, 7, 11, 13}), 400)
+		case 3:
+			kind, chunks = "random", randomChunks(rng)
+		}
+		b.emit("rw "+strconv.Itoa(init)+" "+chunks+" "+p1+" | "+strconv.Itoa(off)+" | "+p2, "inplace-"+kind)
 	}
 	r.Extra["cases_of_20_requests"] = r.Evaluations
 	r.Evaluations = b.total
